@@ -294,6 +294,8 @@ func c04GenCfg(t *rapid.T) (smtpCfg, []string, []string) {
 			}
 		}
 	}
+	// WithoutNoop: the connection check before a send does not talk to the server
+	cfg.NoNoop = rapid.IntRange(0, 4).Draw(t, "nonoop") == 0
 	if rapid.IntRange(0, 3).Draw(t, "auth") == 0 {
 		cfg.Auth = rapid.SampledFrom([]string{"PLAIN-NOENC", "LOGIN-NOENC"}).Draw(t, "authtype")
 		cfg.User, cfg.Pass = "user", "secretpw"
